@@ -116,6 +116,14 @@ def run(ctx: Ctx):
     rnd = ctx.func("bp", "_round_solution")
     bld = ctx.func("bp", "_build_solution")
 
+    from .sat_common import _need as _need_
+
+    mlp = ctx.func("cg", "_solve_master_lp")
+    ctx.step(_need_, "C17-O7", "R16 PAIRED-EFFECTS", mlp, "cg master LP: one row per demand [columns | -surplus | +artificial | demand]; phase 1 minimises the artificials from the basis of artificials, and a positive phase-1 optimum means no covering combination exists", ["for i in range(m):\n        for j, col in enumerate(columns):\n            tab[i][j] = float(col[i])\n        tab[i][n + i] = -1.0\n        tab[i][n + m + i] = 1.0\n        tab[i][-1] = float(demands[i])", "for i in range(m):\n        for j in range(n_vars + 1):\n            tab[-1][j] -= tab[i][j]\n        tab[-1][n + m + i] = 0.0", "basis = list(range(n + m, n + 2 * m))", "if tab[-1][-1] < -eps:\n        return ([0.0] * n, [0.0] * m, float('inf'))", "if n == 0:\n        return ([], [0.0] * m, float('inf'))"], "the value of this LP is the lower bound that licenses OPTIMAL, and its point (rounded up) is the plan")
+    ctx.step(_need_, "C17-O7", "R16 PAIRED-EFFECTS", mlp, "cg master LP: phase 2 minimises the number of rolls (cost 1 per column, priced out against the basis); point, duals and value are read from the final tableau", ["for j in range(n_vars + 1):\n        tab[-1][j] = 0.0\n    for j in range(n):\n        tab[-1][j] = 1.0", "for i, b in enumerate(basis):\n        cost = 1.0 if b < n else 0.0\n        if abs(cost) > eps:\n            for j in range(n_vars + 1):\n                tab[-1][j] -= cost * tab[i][j]", "x_vals = [0.0] * n\n    for i, b in enumerate(basis):\n        if b < n:\n            x_vals[b] = max(0.0, tab[i][-1])", "duals = [tab[-1][n + i] for i in range(m)]\n    objective = -tab[-1][-1]\n    return (x_vals, duals, objective)"])
+    ctx.step(_need_, "C17-O7", "R16 PAIRED-EFFECTS", cs, "cutting-stock loop: a priced pattern joins the list once; the final LP point is rounded up pattern by pattern into the plan and its roll count", ["if new_pattern not in patterns:\n            patterns.append(new_pattern)\n        iteration += 1", "x_vals, duals, lp_obj = _solve_master_lp(patterns, demands, eps)\n    solution: dict[tuple[int, ...], int] = {}\n    total_rolls = 0\n    for pattern, x in zip(patterns, x_vals):\n        if x > eps:\n            count = ceil(x - eps)\n            if count > 0:\n                solution[pattern] = count\n                total_rolls += count", "lb = ceil(lp_obj - eps)\n    status = Status.OPTIMAL if converged and total_rolls <= lb else Status.FEASIBLE\n    return Result(solution, float(total_rolls), iteration, iteration, status)"])
+    ctx.step(_need_, "C17-O7", "R16 PAIRED-EFFECTS", cu, "custom loop: a priced column joins list and set together; the final LP point is rounded up column by column into the plan and its count", ["new_col_tuple = tuple(new_col)\n        if new_col_tuple not in column_set:\n            columns.append(new_col_tuple)\n            column_set.add(new_col_tuple)\n        iteration += 1", "x_vals, duals, lp_obj = _solve_master_lp(columns, demands, eps)\n    solution: dict[tuple[int, ...], int] = {}\n    total = 0\n    for col, x in zip(columns, x_vals):\n        if x > eps:\n            count = ceil(x - eps)\n            if count > 0:\n                solution[col] = count\n                total += count", "lb = ceil(lp_obj - eps)\n    status = Status.OPTIMAL if converged and total <= lb else Status.FEASIBLE\n    return Result(solution, float(total), iteration, iteration, status)"])
+
     # ---- O1 demand gate (siblings)
     def gated(f):
         t = ast.unparse(f.node)
@@ -294,6 +302,9 @@ def run(ctx: Ctx):
     do = ctx.func("utils.pricing", "drive_out_artificials")
     td = ast.unparse(do.node)
     ctx.ob("C17-O5", "R18 SIBLING-AGREEMENT (policy)", do, "pivot-out replaces only artificial basics (index >= n_orig) by a non-basic structural column with a non-zero entry", "if basis[i] < n_orig:\n            continue" in td and "abs(tab[i][j]) > eps" in td and "basis[i] = j" in td and "for j in range(n_orig)" in td, "", node=do.node)
+    from .sat_common import _need as _need2
+
+    ctx.step(_need2, "C17-O5", "R16 PAIRED-EFFECTS", do, "pivot-out: the first non-basic structural column with a non-zero entry replaces the artificial; the row is scaled to a unit entry, every other row (objective row included) is cleared in that column, and the basis label follows", ["in_basis = set(basis)\n        for j in range(n_orig):\n            if j not in in_basis and abs(tab[i][j]) > eps:\n                piv = tab[i][j]\n                for c in range(n_cols):\n                    tab[i][c] /= piv\n                for r in range(n_rows + 1):\n                    if r != i:\n                        factor = tab[r][j]\n                        if abs(factor) > eps:\n                            for c in range(n_cols):\n                                tab[r][c] -= factor * tab[i][c]\n                basis[i] = j\n                break"])
     sp = ctx.func("simplex", "_phase1")
     ctx.ob("C17-O5", "R18 SIBLING-AGREEMENT (policy)", sp, "reference sibling: solve_lp's phase 1 pivots basic artificials out", "if basis[i] in art_cols" in ast.unparse(sp.node) and "_pivot(" in ast.unparse(sp.node), "", node=sp.node)
     # O6 row layout of the bounded master LP = order of the initial basis labels
